@@ -49,12 +49,24 @@ def _reset_signals():
 
     signal.signal(signal.SIGTERM, signal.SIG_DFL)
     signal.signal(signal.SIGINT, signal.SIG_DFL)
+    # own process group: if the task has to be abandoned, its forked children (crash-injection
+    # children, helper subprocesses) are killed with it instead of lingering and holding our stdout
+    try:
+        os.setpgrp()
+    except OSError:
+        pass
+
+
+def _ckpt_file(pid, shard):
+    d = os.environ.get("VERIF_SCRATCH") or "/var/tmp"
+    return os.path.join(d, f"vf-ckpt-{pid}-{os.getppid() if multiprocessing.parent_process() else os.getpid()}-{shard}.pkl")
 
 
 def _worker(args):
     pid, tier, seed, shard, nshards, deadline, task = args
     mod = load_module(pid)
     ctx = core.Ctx(pid, tier, seed, shard, nshards, deadline)
+    ctx._ckpt_path = _ckpt_file(pid, shard)
     t0 = time.time()
     try:
         if task.get("task") == "__replays__":
@@ -76,6 +88,10 @@ def _worker(args):
         return {"error": traceback.format_exc(), "task": task}
     finally:
         ctx.cleanup()
+        try:
+            os.unlink(ctx._ckpt_path)
+        except OSError:
+            pass
 
 
 def merge(results):
@@ -217,10 +233,37 @@ def main(argv=None):
                     break
                 if time.time() > hard_deadline:
                     abandoned = [args[i][6].get("task") for i in sorted(pending)]
+                    abandoned_shards = sorted(pending)
                     break
                 time.sleep(0.2)
+            if pending:
+                import signal
+
+                for proc in list(getattr(pool, "_pool", [])):
+                    try:
+                        os.killpg(proc.pid, signal.SIGKILL)
+                    except OSError:
+                        pass
             pool.terminate()
         if abandoned:
+            # pick up what the abandoned tasks had recorded so far (checkpoints written every few seconds)
+            import pickle
+
+            for sh in abandoned_shards:
+                cp = os.path.join(os.environ.get("VERIF_SCRATCH") or "/var/tmp", f"vf-ckpt-{pid}-{os.getpid()}-{sh}.pkl")
+                try:
+                    with open(cp, "rb") as f:
+                        part = pickle.load(f)
+                    part["task"] = "__partial__"
+                    part["wall"] = 0
+                    part["budget_hit"] = True
+                    results.append(part)
+                except Exception:  # noqa: BLE001
+                    pass
+                try:
+                    os.unlink(cp)
+                except OSError:
+                    pass
             print(f"NOTE property={pid} abandoned {len(abandoned)} task(s) still running {grace:.0f}s after the "
                   f"generation guard: {abandoned[:8]} (inconclusive for them)", file=sys.stderr)
             results.append({"evaluations": 0, "keys": set(), "keys_capped": False, "classes": {}, "samples": [],
